@@ -132,11 +132,16 @@ func (c *Case) Run() (obs Obs) {
 		}
 	}()
 	l := zerolog.New(w).Level(zerolog.Level(-128))
-	muted := false
-	if c.Root == 1 {
+	muted, writerless := false, false
+	switch c.Root {
+	case 1:
 		// the logger libraries hand out by default: Nop() = a Disabled logger, given a destination afterwards
 		l = zerolog.Nop().Output(w)
 		muted = true
+	case 2:
+		// a logger without a writer (New(nil) substitutes io.Discard), given a destination afterwards
+		l = zerolog.New(nil).Level(zerolog.Level(-128))
+		writerless = true
 	}
 	pre := func() {
 		Marks = nil
@@ -158,9 +163,18 @@ func (c *Case) Run() (obs Obs) {
 		case st.Mute == 2 || st.Noise == 1:
 			muted = false
 		}
+		switch {
+		case st.Out == 1:
+			writerless = true
+		case st.Out == 2 || st.Noise == 2:
+			writerless = false
+		}
 	}
 	if muted {
 		l = l.Level(zerolog.Level(-128)) // a descendant of the muted stretch is enabled again
+	}
+	if writerless && !c.NoWriter {
+		l = l.Output(w) // a descendant of the writer-less stretch is given the writer again
 	}
 	if c.Pre != nil && !c.Pre.Early {
 		pre()
@@ -185,6 +199,21 @@ func (c *Case) Run() (obs Obs) {
 		deferred[i]()
 	}
 	return
+}
+
+// EndsWriterless: the event is logged through a logger that has no writer (New(nil) / Output(nil), not followed by an
+// Output(w)), so that there is no line to observe
+func (c *Case) EndsWriterless() bool {
+	writerless := c.Root == 2
+	for _, st := range c.Steps {
+		switch {
+		case st.Out == 1:
+			writerless = true
+		case st.Out == 2 || st.Noise == 2:
+			writerless = false
+		}
+	}
+	return writerless && c.NoWriter
 }
 
 // EntryNames: the ways an event of a given level is started (Case.Entry)
@@ -284,6 +313,12 @@ func (c *Case) Describe() interface{} {
 		case 2:
 			sd["then"] = "Level(-128)"
 		}
+		switch st.Out {
+		case 1:
+			sd["then_output"] = "Output(nil)"
+		case 2:
+			sd["then_output"] = "Output(w)"
+		}
 		steps = append(steps, sd)
 	}
 	d := map[string]interface{}{"settings": fmt.Sprintf("%+v", c.S), "steps": steps, "level": c.Level, "ops": DescribeOps(c.Ops), "msg": fmt.Sprintf("%q", c.Msg), "finalizer": c.Fin}
@@ -292,6 +327,12 @@ func (c *Case) Describe() interface{} {
 	}
 	if c.Root == 1 {
 		d["root"] = "zerolog.Nop().Output(w), re-enabled by a later Level()"
+	}
+	if c.Root == 2 {
+		d["root"] = "zerolog.New(nil).Level(-128), given the writer by a later Output(w)"
+	}
+	if c.NoWriter {
+		d["event_logged_through"] = "the last logger of the chain as it is - without a writer if the chain ends inside a New(nil) / Output(nil) stretch"
 	}
 	if c.Pre != nil {
 		d["before_the_event"] = map[string]interface{}{"a_filtered_event_on_the_same_logger": PreludeModes[c.Pre.Mode], "times": c.Pre.Reps, "before_the_logger_is_derived": c.Pre.Early, "ops": DescribeOps(c.Pre.Ops), "finalizer": c.Pre.Fin}
